@@ -230,3 +230,80 @@ def copy_(w, cfg):
     w.ensure('write to the original is not visible in the copy', same_obs(w, oc2, obs(c)))
     w.canary('canary: copy has T + 1', w.eq(oc['T'], pre['T'] + 1))
     w.canary('canary: write to the copy visible in the original', same_TP(w, os2, oc2))
+
+
+# =========================================================================== copy_like
+
+def copy_like_configs(tier):
+    targets = ['l', 'g', 'm:l', 'm:gl', 'm:Ll']
+    sources = ['l', 'g', 's', 'L', 'm:l', 'm:gl', 'm:Ll', 'm:gls']
+    pkgs = ['AA', 'AB']
+    if tier == 'thorough':
+        targets += ['s', 'L', 'm:g', 'm:gL', 'm:gls', 'c:gl']
+        sources += ['m:g', 'm:gL', 'S', 'c:gl', 'm:ls']
+        pkgs += ['AB4', 'BA']
+    out = []
+    for t, s, p in itertools.product(targets, sources, pkgs):
+        fills = ['pos+maybe']
+        if _is_multi(s) and len(KINDS[s]) > 1 and (p == 'AA' or tier == 'thorough'):
+            fills += ['first-row', 'last-row']      # multi-phase source holding one phase
+        if tier == 'thorough' and p == 'AA':
+            fills += ['empty']
+        for f in fills:
+            out.append({'name': f't={t};s={s};pkg={p};fill={f}', 't': t, 's': s, 'pkg': p, 'fill': f})
+    if tier == 'thorough':
+        out.append({'name': 't=SELF;s=l;pkg=AA;fill=pos+maybe', 't': 'SELF', 's': 'l', 'pkg': 'AA', 'fill': 'pos+maybe'})
+        out.append({'name': 't=SELF;s=m:gl;pkg=AA;fill=pos+maybe', 't': 'SELF', 's': 'm:gl', 'pkg': 'AA', 'fill': 'pos+maybe'})
+    return out
+
+
+def _expected_flows(src, t_phases):
+    """Source flows relabelled for a target with phases `t_phases`: same label, or the other-case label
+    only if the exact label is absent (C12 rule).  Returns (flows, unrepresentable source phases)."""
+    exp = {}
+    missing = []
+    for (p, cas), v in src['flows'].items():
+        q = p if p in t_phases else (_swapcase(p) if _swapcase(p) in t_phases else None)
+        if q is None:
+            missing.append(p)
+            continue
+        exp[q, cas] = exp.get((q, cas), 0.) + v
+    return exp, sorted(set(missing))
+
+
+@group('C13/copy_like', configs=copy_like_configs,
+       functions=['thermosteam._stream:Stream.copy_like', 'thermosteam._multi_stream:MultiStream.copy_like',
+                  'thermosteam.indexer:ChemicalIndexer.copy_like', 'thermosteam.indexer:MaterialIndexer.copy_like',
+                  'thermosteam.indexer:MaterialIndexer._expand_phases', 'thermosteam.indexer:index_overlap',
+                  'thermosteam._thermal_condition:ThermalCondition.copy_like', 'thermosteam._stream:Stream.phases',
+                  'thermosteam._multi_stream:MultiStream.phases', 'thermosteam.base.sparse:SparseVector.copy_like',
+                  'thermosteam.base.sparse:SparseArray.copy_like'])
+def copy_like(w, cfg):
+    W.reset_caches()
+    pt, ps = cfg['pkg'][0], cfg['pkg'][1:]
+    s = _mk(w, 's', cfg['s'], ps, cfg['fill'])
+    t = s if cfg['t'] == 'SELF' else _mk(w, 't', cfg['t'], pt, 'pos+maybe')
+    if _is_multi(cfg['t']):
+        for ph in t.phases: t[ph]            # per-phase views exist before the call (they are cached by the stream)
+    pre = obs(s)
+    t.copy_like(s)
+    ot = obs(t)
+    w.ensure('T and P equal to the source', same_TP(w, ot, pre))
+    if _is_multi(cfg['t']):
+        exp, missing = _expected_flows(pre, ot['phases'])
+        w.ensure('every source phase is a phase of the target', missing == [], missing=missing, target_phases=ot['phases'])
+    else:
+        exp = pre['flows']
+        w.ensure('phase(s) equal to the source', ot['phases'] == pre['phases'], target=ot['phases'], source=pre['phases'])
+    w.ensure('flows equal to the source, phase by phase', eq_map(w, ot['flows'], exp))
+    w.ensure('source unchanged', same_obs(w, pre, obs(s)))
+    w.ensure('target rep_ok', rep_ok(w, ot))
+    if t is not s:
+        w.ensure('target shares no container with the source', shared_roles(t, s) == [], shared=shared_roles(t, s))
+        w.ensure('target phase views consistent', views_consistent(w, t))
+        havoc(w, t, 'wt')
+        w.ensure('later write to the target is not visible in the source', same_obs(w, pre, obs(s)))
+    w.canary('canary: T = source T + 1', w.eq(ot['T'], pre['T'] + 1))
+    k0 = sorted(pre['flows'], key=str)
+    if k0:
+        w.canary('canary: source flow doubled', w.eq(pre['flows'][k0[0]], 2 * pre['flows'][k0[0]] + 1))
